@@ -135,6 +135,8 @@ class Runner:
         if op in ("set", "get", "del", "in", "getd", "mutsrc"):
             rec["k"] = a
             key = self.keys[a - 1]
+        if op == "occupy":
+            rec["k"] = a
         if op in ("set", "mutsrc"):
             rec["v"] = b
         if op == "getd":
@@ -178,6 +180,13 @@ class Runner:
                     newsrc = {self.keys[k - 1]: self.vals[v - 1] for k, v in a}
                     self.ctor(lambda: self.cls.from_dict(newsrc, self.path))
                     self.src = newsrc          # the caller keeps (and keeps changing) this very object
+                elif op == "occupy":
+                    # the environment, not the library: a foreign file under the path (a = 0: empty, e.g. reserved with
+                    # mkstemp; a = 1: some bytes)
+                    if self.objects or os.path.lexists(self.path):
+                        raise MachineryError("history occupies a path that is already in use")
+                    with open(self.path, "wb") as f:
+                        f.write(b"" if a == 0 else b"not a dictionary\n")
                 elif op == "mutsrc":
                     if self.src is None:
                         rec["out"] = "NoObject"
@@ -375,7 +384,7 @@ MODEL_CLAUSES = ["INVARIANT TypeOK", "INVARIANT ClosedRaises", "INVARIANT Total"
                  "PROPERTY ClosePersists", "PROPERTY OpenLoads", "PROPERTY SrcIndependent", "PROPERTY ExistsMonotone",
                  "PROPERTY RefusedNoEffect"]
 OPS = ["set", "get", "del", "in", "len", "iter", "getd", "clear", "sync", "close", "create", "fromdict", "open"]
-MUST_FIRE = ["G_%s_%s" % (o, x) for o in OPS for x in ("ok", "ref")] + ["G_mutsrc"]
+MUST_FIRE = ["G_%s_%s" % (o, x) for o in OPS for x in ("ok", "ref")] + ["G_mutsrc", "G_occupy"]
 
 
 def model_check():
@@ -454,6 +463,12 @@ def random_history(rnd, kind, maxlen):
             r = rnd.random()
             if ctor_ok and (not have or r < 0.6):
                 c = rnd.random()
+                if not made and not h and c < 0.06:
+                    # a foreign file sits under the path: every constructor that creates must refuse, for ever
+                    h.append(("occupy", rnd.randint(0, 1), 0))
+                    for _ in range(rnd.randint(1, 3)):
+                        h.append(rnd.choice([("create", 0, 0), ("fromdict", [[1, 1]], 0)]))
+                    return h
                 if not made and c < 0.15:
                     h.append(("open", 0, 0))                       # open a missing path
                 elif not made and c < 0.55:
@@ -517,6 +532,8 @@ def hist_str(h):
             return "getd(%s,%s)" % (a, "dflt" if b == -2 else "-")
         if op == "fromdict":
             return "fromdict(%s)" % (a if isinstance(a, int) else json.dumps(a, separators=(",", ":")))
+        if op == "occupy":
+            return "occupy(%s)" % ("empty" if a == 0 else "bytes")
         return op
     return ";".join(one(s) for s in h)
 
